@@ -605,7 +605,7 @@ class Gen:
             # "added": the placeholder created by the OTHER registry's .source is given a store in THIS registry
             # through registry.add (e.g. a fixture store substituted for a production input)
             return self.add({"k": "src", "deps": [], "scope": self.scope(), "foreign": kind}, hashable=True)
-        dependent = bool(self.refs) and d(st.sampled_from([True, False, False]))
+        dependent = d(st.sampled_from([True, True, False, False, False]))
         xdeps = []
         if self.xdeps and self.refs and not dependent and d(st.integers(0, 1)) == 0:
             # only for sources without a writer: a writer is not ordered after the extra dependencies, so
@@ -664,7 +664,7 @@ class Gen:
         if self.shared:
             kinds += ["accum"]
         if self.registry:
-            kinds += ["src", "src"]
+            kinds += ["src", "src", "src", "src"]
         k = d(st.sampled_from(kinds))
         return getattr(self, "add_" + k)()
 
